@@ -261,3 +261,137 @@ def JOINCESC(chars):
     for c in chars:
         out = out + CESC(TOCHAR(c))
     return out
+
+
+# ---- meta patterns as method chains (their text, for ALL integer parameters) -------------------------------------------
+
+def BOUNDED_WORD(p, is_extensible):
+    # __Word.__init__: the word pattern between word boundaries unless it is to be extended
+    if is_extensible:
+        return p
+    return METHOD(p, 'enclose', NEW('WordBoundary'))
+
+
+def WORD_CHAIN(min_chars, max_chars, is_global, is_extensible):
+    return BOUNDED_WORD(METHOD(NEW('AnyWordChar', is_global), 'at_least_at_most', min_chars, max_chars), is_extensible)
+
+
+def AFFIX_LIST(x):
+    # a single string counts as a list of one
+    if LISTV(x):
+        return x
+    return [x]
+
+
+def WORDCHARS(is_global):
+    # any run of word characters (possibly empty)
+    return METHOD(NEW('AnyWordChar', is_global), 'indefinite')
+
+
+def WORDCONTAINS_CHAIN(infix, is_global, is_extensible):
+    return BOUNDED_WORD(METHOD(TP(FOLDV(tuple(AFFIX_LIST(infix)), 'either')), 'enclose', WORDCHARS(is_global)), is_extensible)
+
+
+def WORDSTARTS_CHAIN(prefix, is_global, is_extensible):
+    return BOUNDED_WORD(METHOD(TP(FOLDV(tuple(AFFIX_LIST(prefix)), 'either')), '__add__', WORDCHARS(is_global)), is_extensible)
+
+
+def WORDENDS_CHAIN(suffix, is_global, is_extensible):
+    return BOUNDED_WORD(METHOD(WORDCHARS(is_global), '__add__', TP(FOLDV(tuple(AFFIX_LIST(suffix)), 'either'))), is_extensible)
+
+
+def NUMERAL_CHAIN(base, n_min, n_max, is_extensible):
+    # the digit class of the base is Numeral(base, 1, 1, is_extensible=True) (its set of digits is decided per base in C17)
+    return BOUNDED_WORD(METHOD(NUMERAL_DIGITS(base), 'at_least_at_most', n_min, n_max), is_extensible)
+
+
+INTEGER_CORE_Q = 'pregex.meta.essentials.__Integer.__integer'
+
+
+def INTEGER_T(sign, start, end, is_extensible):
+    # __Integer: the sign pattern followed by the digits pattern of the range
+    return METHOD(sign, '__add__', CALLQ('pregex.meta.essentials.__Integer.__integer', start, end, is_extensible))
+
+
+def SIGN_INTEGER(include_sign, is_extensible):
+    # reference texts of the sign part: none / '+' or '-' / (glued to nothing: after a non-word boundary, or no sign at all)
+    if not include_sign:
+        return PAT('')
+    if is_extensible:
+        return PAT('\\+|-')
+    return PAT('\\B(?:\\+|-)|(?<!\\+|-)')
+
+
+def SIGN_POSITIVE(is_extensible):
+    if is_extensible:
+        return PAT('\\+')
+    return PAT('\\B\\+|(?<!\\+|-)')
+
+
+def SIGN_NEGATIVE(is_extensible):
+    if is_extensible:
+        return PAT('-')
+    return PAT('\\B-')
+
+
+def SIGN_UNSIGNED(is_extensible):
+    return PAT('(?<!\\+|-)')
+
+
+def DECIMAL_T(integer_part, no_integer_part, min_decimal, max_decimal, is_extensible):
+    # __Decimal: (integer part | what stands for a missing integer part) . fraction digits
+    if NONE(no_integer_part):
+        head = integer_part
+    else:
+        head = FOLDV((integer_part, no_integer_part), 'either')
+    return METHOD(head, '__add__', METHOD(NUMERAL_CHAIN(10, min_decimal, max_decimal, is_extensible), '__radd__', '.'))
+
+
+def NOINT_DECIMAL(start, include_sign, is_extensible):
+    # what may stand where the integer part is missing ('.5'): only when the range starts at 0
+    if start != 0:
+        return None
+    if include_sign:
+        return PAT('(?<!\\d)(?:\\+|-)?')
+    return PAT('(?<!\\d)')
+
+
+def NOINT_POSITIVE(start, is_extensible):
+    if start != 0:
+        return None
+    if is_extensible:
+        return PAT('(?<!\\d)\\+?')
+    return PAT('\\B\\+?')
+
+
+def NOINT_NEGATIVE(start, is_extensible):
+    if start != 0:
+        return None
+    if is_extensible:
+        return PAT('(?<!\\d)-')
+    return PAT('\\B-')
+
+
+def NOINT_UNSIGNED(start, is_extensible):
+    if start != 0:
+        return None
+    if is_extensible:
+        return PAT('(?<!\\+|-|\\d)')
+    return PAT('(?<!\\+|-)\\B')
+
+
+def DATE_SELECTION(formats):
+    # the formats a call selects: all documented ones for None, the single one for a string, else the list itself
+    if NONE(formats):
+        return DATE_FORMATS()
+    if STRV(formats):
+        return [formats]
+    return formats
+
+
+def DATE_CHAIN(formats, is_extensible):
+    # the alternation, in the given order, of the patterns of the selected formats; bounded unless it is to be extended
+    pres = []
+    for f in DATE_SELECTION(formats):
+        pres.append(CALLQ('pregex.meta.essentials.Date.__date_pre', f))
+    return BOUNDED_WORD(TP(FOLDV(tuple(pres), 'either')), is_extensible)
